@@ -49,4 +49,22 @@ PROPS = {
                         "moved-from roots are only required to be valid and childless; they are destroyed right away",
                         "after an injected failure the touched trees may hold any state between before and after, but links must be consistent and nothing may leak"],
     },
+    "C11": {
+        "engines": [{
+            "id": "C11", "bin": "c11", "flavour": "asan",
+            "runs": {"quick": 200000, "thorough": 20000000},
+            "budget": {"quick": 40, "thorough": 900},
+            "enum_every": {"quick": 100, "thorough": 25},
+        }],
+        "technique": "deterministic simulation with fault injection: seeded create/destroy/move histories of elements, lists, signals and connections against a membership model, injected allocation failures in connect and throwing callbacks, ring-closure invariant, invocation log, ASan as the stale-pointer monitor, minimised replay",
+        "level_text": "Seeded search over histories (up to 50 operations) of up to 3 intrusive lists with 8 heap-allocated elements and up to 3 signals (value/void, with and without unregister base) with 8 connections: creation, destruction in every order (lists and signals before their members), move construction and move assignment of elements, lists and signals from empty and non-empty sources, unlink, calls, throwing callbacks, allocation failure in connect, unregister callbacks that inspect empty() and destroy the signal (documented use). After every step forward/backward/const iteration and empty() are compared with the model (bounded, so a corrupted ring cannot hang the check), every call's invocation order and fold result are compared, unregister callbacks must run exactly once at the connection's death. The fault space is small (allocation in connect/sig construction, throwing callback) and is reported as such. Sampling, not proof.",
+        "level_note": "Stubs: global operator new/delete (tagging + injected bad_alloc), callbacks (log + injected throw). Trusted: the membership model, ASan/UBSan, the harness. Excluded by precondition: callbacks that connect/disconnect/destroy during a call (no re-entrancy promised), throwing unregister callbacks (documented std::terminate), use of a moved-from signal other than destroying or assigning to it. List move-assignment orphans the target's previous members (not demanded to stay).",
+        "rule": "One run = one generated history (1-50 operations) over intrusive lists/elements and/or signals/connections, "
+                "about a third of the runs with injected allocation failures and throwing callbacks. Non-trivial = at least 3 effective operations.",
+        "real": REAL_COMMON + ["intrusive::list/base/iterator, signal::object/base/unregister::base, connections, fcppt::function"],
+        "stub": ["global operator new/delete (tagging + injected bad_alloc)", "signal and unregister callbacks (invocation log, injected exception)"],
+        "assumptions": ["L = std::move(M) orphans L's previous members (in no list, still safely movable and destructible)",
+                        "no re-entrant connect/disconnect during a call; unregister callbacks do not throw",
+                        "a moved-from signal is only destroyed, assigned to or asked empty()"],
+    },
 }
